@@ -27,7 +27,7 @@ TOK_FULL = ["ID", "1", "0", "2", "'s'", "`q r`", "(", ")", "[", "]", "{", "}", "
 TOK_MID = ["ID", "1", "0", "'s'", "(", ")", "[", "]", ",", "+", "-", "*", ":", "**", "|", "~", "=", "%"]
 TOK_SMALL = ["ID", "1", "(", ")", "+", "-", ":", "**", "*", "|", "~", ","]
 ALPHA = {"full": TOK_FULL, "mid": TOK_MID, "small": TOK_SMALL}
-NAMES = "abcdefghij"
+NAMES = "abcdefghijklmnopqrstuvwxyz"
 
 
 def render_tokens(ts):
@@ -68,8 +68,21 @@ def units(tier, seed):
         u.append(["unary", 1, [o1]])
         for o2 in CHAIN_OPS:
             u.append(["unary", 2, [o1, o2]])
+    # space 4: chains whose operands are composite (calls with positional / keyword arguments, braces, groups, subscripts)
+    ops2 = CHAIN_OPS if tier == "thorough" else ["~", "+", ":", "*", "|"]
+    for o1 in CHAIN_OPS:
+        u.append(["composite", [o1]])
+        for o2 in ops2:
+            for first in range(len(COMPOSITE)):
+                u.append(["composite", [o1, o2], first])
     u.append(["sentences", tier])
     return u
+
+
+COMPOSITE = [
+    ["ID"], ["ID", "(", "ID", ")"], ["ID", "(", "ID", ",", "ID", "=", "ID", ")"], ["{", "ID", "+", "ID", "}"], ["(", "ID", "+", "ID", ")"],
+    ["ID", "[", "ID", "]"], ["ID", "(", "ID", "(", "ID", ")", ",", "'s'", ")"],
+]
 
 
 CHAIN_OPS = ["~", "|", "<", "+", "-", "*", "/", ":", "**"]
@@ -126,6 +139,15 @@ def expand(unit):
                             if j < k:
                                 ts.append(ops[j])
                         yield ["t", ts]
+    elif kind == "composite":
+        ops = unit[1]
+        firsts = range(len(COMPOSITE)) if len(unit) < 3 else [unit[2]]
+        for a in firsts:
+            for rest in itertools.product(range(len(COMPOSITE)), repeat=len(ops)):
+                ts = list(COMPOSITE[a])
+                for o, r in zip(ops, rest):
+                    ts += [o] + COMPOSITE[r]
+                yield ["t", ts]
     elif kind == "sentences":
         for s in SENTENCES:
             yield ["s", s]
